@@ -110,6 +110,7 @@ fn main() {
             {
                 let mut rr = range_recs.lock().unwrap();
                 for r in ranges {
+                    let mut modpath = false;
                     let (len, bs, be, ntok) = match files.get(r.file as usize) {
                         Some((_, tx)) => {
                             let (s, e) = (r.start.min(tx.len()), r.end.min(tx.len()));
@@ -125,6 +126,22 @@ fn main() {
                                 if te == r.end { aligned_end = true; }
                             }
                             if !(aligned_start && aligned_end) { ntok = -1; }
+                            // a module path: the range tiles exactly IDENT ("/" IDENT)* (trivia between them allowed)
+                            if ntok > 1 {
+                                let mut want_ident = true;
+                                let mut ok = true;
+                                let mut n = 0;
+                                for t in syntax::lexer::GleamLexer::new(tx) {
+                                    let (ts, te) = (usize::from(t.range.start()), usize::from(t.range.end()));
+                                    if ts < r.start || te > r.end || t.kind.is_trivia() { continue; }
+                                    let is_ident = t.kind == syntax::SyntaxKind::IDENT;
+                                    let is_slash = &tx[ts..te] == "/";
+                                    if (want_ident && !is_ident) || (!want_ident && !is_slash) { ok = false; break; }
+                                    want_ident = !want_ident;
+                                    n += 1;
+                                }
+                                modpath = ok && n >= 3 && !want_ident;
+                            }
                             (tx.len(), bs, be, ntok)
                         }
                         None => (0, false, false, -1),
@@ -147,8 +164,8 @@ fn main() {
                             }
                         }
                     }
-                    rr.entry(format!("\"kind\":\"{}\",\"f\":{},\"nf\":{},\"s\":{},\"e\":{},\"len\":{},\"bs\":{},\"be\":{},\"ntok\":{},\"os\":{},\"oe\":{},\"lsp\":{},\"sl\":{},\"sc\":{},\"el\":{},\"ec\":{},\"nl\":{},\"l16s\":{},\"l16e\":{}",
-                        r.kind, r.file, files.len(), r.start, r.end, len, bs, be, ntok, os, oe, lsp.0, lsp.1, lsp.2, lsp.3, lsp.4, lsp.5, lsp.6, lsp.7)).or_insert(ci);
+                    rr.entry(format!("\"kind\":\"{}\",\"f\":{},\"nf\":{},\"s\":{},\"e\":{},\"len\":{},\"bs\":{},\"be\":{},\"ntok\":{},\"os\":{},\"oe\":{},\"lsp\":{},\"sl\":{},\"sc\":{},\"el\":{},\"ec\":{},\"nl\":{},\"l16s\":{},\"l16e\":{},\"modpath\":{}",
+                        r.kind, r.file, files.len(), r.start, r.end, len, bs, be, ntok, os, oe, lsp.0, lsp.1, lsp.2, lsp.3, lsp.4, lsp.5, lsp.6, lsp.7, modpath)).or_insert(ci);
                 }
             }
             let mut t = totals.lock().unwrap();
